@@ -50,6 +50,9 @@ type Result struct {
 	StderrW *stampWriter
 	// StdoutFailed: the injected stdout write error was hit
 	StdoutFailed bool
+	// LeakedStdout: bytes written to the process's os.Stdout instead of the
+	// writer handed to mainImplementation (already appended to Stdout)
+	LeakedStdout []byte
 }
 
 // failingWriter accepts `left` bytes and then fails like a full disk.
@@ -202,6 +205,15 @@ func RunA(t *testing.T, h Hooks, sc *Scenario, site *Site) *Result {
 	stderr := &stampWriter{run: run, name: "stderr"}
 	res.StderrW = stderr
 
+	// Anything git-sizer writes to the process's own stdout (fmt.Println
+	// instead of the stdout writer it was given) would be on stdout of the
+	// real binary: capture it and count it as report output.
+	realStdout := os.Stdout
+	var leakFile *os.File
+	if f, err := os.CreateTemp(site.Root, "stdout-leak-"); err == nil {
+		leakFile = f
+		os.Stdout = f
+	}
 	wall0 := time.Now()
 	func() {
 		defer func() {
@@ -251,7 +263,16 @@ func RunA(t *testing.T, h Hooks, sc *Scenario, site *Site) *Result {
 		})
 	}()
 	res.WallNS = int64(time.Since(wall0))
+	os.Stdout = realStdout
 	res.Stdout = stdout.Bytes()
+	if leakFile != nil {
+		leakFile.Close()
+		if b, err := os.ReadFile(leakFile.Name()); err == nil && len(b) > 0 {
+			res.LeakedStdout = b
+			res.Stdout = append(append([]byte(nil), res.Stdout...), b...)
+		}
+		os.Remove(leakFile.Name())
+	}
 	if fw != nil && fw.failed {
 		res.StdoutFailed = true
 		run.fired("stdout-write-error")
